@@ -198,8 +198,7 @@ Open(edge, form, ra, vra) ==
     /\ Script = <<>>
     /\ edge \in Edges
     /\ Depth < MaxDepth
-    /\ ValidContainer(form, ra, vra)
-    /\ (edge = "none" => form = "s_named" /\ ra = "none")
+    /\ IF edge = "none" THEN form = "s_named" /\ ra = "none" /\ vra = "inherit" ELSE ValidContainer(form, ra, vra)
     /\ toks' = Append(toks, [t |-> "O", edge |-> edge, form |-> form, ra |-> ra, vra |-> vra])
     /\ total' = total + 1
     /\ LET up == [stack EXCEPT ![Len(stack)] = [@ EXCEPT !.nf = @ + 1]]
@@ -224,8 +223,8 @@ Finish ==
 \* (the phase guard stands before the quantifiers so that TLC does not enumerate them in vain)
 RootAny == phase = "root" /\ \E form \in Forms, ra \in Styles, vra \in VStyles \cup {"inherit"} : Root(form, ra, vra)
 FieldAny == phase = "in" /\ \E k \in Kinds : Field(k)
-OpenAny == phase = "in" /\ \E edge \in Edges, form \in Forms, ra \in Styles, vra \in VStyles \cup {"inherit"} :
-                              Open(edge, form, ra, vra)
+OpenAny == phase = "in" /\ \E edge \in Edges, form \in Forms \cup {"s_named"}, ra \in Styles \cup {"none"},
+                                 vra \in VStyles \cup {"inherit"} : Open(edge, form, ra, vra)
 Next == RootAny \/ FieldAny \/ OpenAny \/ Close \/ Finish
 
 Spec == Init /\ [][Next]_vars
